@@ -84,6 +84,9 @@ type Prop struct {
 	Workers         int // default 16
 	// StraceArgs: for Mode=="strace" cases, extra arguments for strace (-e trace=...)
 	StraceArgs []string
+	// RaceClassSuffix, if set, is appended to the class of a race-detector report (e.g. to tell
+	// which storage driver the racing workload ran on, derived from harness frames in the report).
+	RaceClassSuffix func(report string) string
 	// Explanation for evidence
 	Explanation string
 }
